@@ -200,7 +200,9 @@ def run_late(drv, pid, late_files):
     for f in late_files:
         src = os.path.join(drv.COQ, f)
         rc, out = drv.run(['timeout', '900', 'coqc', '-R', drv.COQ, 'Verif', '-o', os.path.join(outdir, f + 'o'), src], cwd=drv.COQ)
-        outputs.append(out)
+        if rc == 0:
+            names = re.findall(r'Print Assumptions\s+(\w+)', open(src, encoding='utf-8').read())
+            outputs.append('Print Assumptions of %s (late file; in order %s): %s' % (f, ', '.join(names), ' | '.join(l.strip() for l in out.split('\n') if l.strip())))
         if rc != 0:
             lemma = None
             m = re.search(r'line (\d+), characters', out)
@@ -212,7 +214,7 @@ def run_late(drv, pid, late_files):
                         lemma = mm.group(2)
                         break
             failures.append(dict(file=f, first_failing_lemma=lemma, output=out[-1200:]))
-    res = dict(ok=not failures, files=late_files, seconds=None)
+    res = dict(ok=not failures, files=late_files, seconds=None, assumptions=outputs)
     if failures:
         vals, facts, err, broken = component_values(drv, outdir)
         diffs, regenerated, expected = differences(drv)
